@@ -53,7 +53,7 @@ func main() {
 						name = id.Name + "." + name
 					}
 				}
-				out = append(out, rel+":"+name+"\t"+an.SigText(fd.Type))
+				out = append(out, rel+":"+name+"\t"+an.SigText(fd.Type)+"#"+an.ShapeHash(fd.Body))
 			}
 		}
 		return nil
